@@ -291,6 +291,20 @@ func sgGenFor(prop string) func(seed uint64, idx, total int, tier string) any {
 					} else {
 						ops = append(ops, sgOp{Kind: "remote-raw", Peer: p, A: 3, B: r.Intn(2)})
 					}
+				case x < 17 && prop == "C02":
+					// a pending offer (local or remote) followed at once by a rollback from the matching
+					// or the wrong side
+					if r.Bool(0.5) {
+						// (an offer created first and never applied gives the local rollback some SDP text)
+						ops = append(ops, sgOp{Kind: "offer", Peer: p}, sgOp{Kind: "foreign-offer", Peer: p, A: r.Intn(5)})
+					} else {
+						ops = append(ops, sgOp{Kind: "offer", Peer: p}, sgOp{Kind: "setlocal", Peer: p, A: -1})
+					}
+					if r.Bool(0.5) {
+						ops = append(ops, sgOp{Kind: "setlocal", Peer: p, A: 3, B: r.Intn(2)})
+					} else {
+						ops = append(ops, sgOp{Kind: "remote-raw", Peer: p, A: 3, B: r.Intn(2)})
+					}
 				case x < 15 && prop == "C03":
 					ops = append(ops, sgOp{Kind: "deliver", Peer: p, A: r.Intn(3), S: vfPick(r, sgTamperClasses)})
 				case x < 17 && prop != "C02":
